@@ -6,6 +6,13 @@ use serde_json::{json, Value};
 
 pub fn profile(p: u64) -> Scn {
     let mut s = Scn::default();
+    if p == 4 {
+        // tiny epochs (permanent difficulty): uncle candidates of one epoch meet templates of the next
+        s.mine = true;
+        s.window = (2, 4);
+        s.epoch_len = 6;
+        return s;
+    }
     match p % 4 {
         0 => { s.mine = true; s.window = (2, 4); }
         1 => { s.mine = false; s.window = (2, 4); }
@@ -102,14 +109,33 @@ pub fn reorg_history(args: &[String], probes: bool) -> Value {
     let mut w = World::new(&scn, "");
     w.probe_templates = probes && scn.mine;
     w.probe_budget = opt_u64(args, "--probes", 30) as usize;
+    let mut nonce = 100u64;
     let (mut n_reorg, mut n_detached, mut n_blocks, mut n_accept, mut n_reject, mut n_conc, mut n_commit_side, mut n_directed) = (0u64, 0u64, 0u64, 0u64, 0u64, 0u64, 0u64, 0u64);
     let mut err: Option<String> = None;
-    let mut nonce = 100u64;
     // twins created for transactions that went to the main chain: candidates to be committed on a side branch
     let mut twins: Vec<usize> = vec![];
     for _step in 0..steps {
         let r = rng.below(100);
         let res: Result<(), String> = (|| {
+            // directed (tiny epochs): when the tip is one of the last two blocks of an epoch, replace it by a branch of
+            // two blocks - the detached block becomes an uncle candidate of the old epoch - and take templates for the
+            // first blocks of the new epoch
+            let l = w.scn.epoch_len as usize;
+            let n = w.chain.len();
+            if w.probe_templates && l < 50 && n >= 2 && ((n + 1) % l == 0 || (n + 2) % l == 0) && rng.chance(2, 3) {
+                nonce += 10;
+                let contents = vec![(vec![], vec![]); 2];
+                let (d, _) = w.reorg(1, &contents, nonce * 13)?;
+                if d > 0 {
+                    n_reorg += 1;
+                    n_detached += d as u64;
+                }
+                w.probe_template("epoch-boundary", true);
+                w.mine()?;
+                w.probe_template("epoch-boundary", true);
+                n_blocks += 1;
+                return Ok(());
+            }
             if r < 40 {
                 if let Some(t) = random_tx(&mut w, &mut rng, false) {
                     if w.submit(t).is_ok() {
@@ -233,9 +259,9 @@ pub fn reorg_history(args: &[String], probes: bool) -> Value {
         }
     }
     let mut doc = w.finish_json();
-    doc["summary"] = json!({"seed": seed, "profile": pr % 4, "mine": scn.mine, "steps": steps, "events": w.events.len(), "txs": w.txs.len(), "accepted": n_accept,
+    doc["summary"] = json!({"seed": seed, "profile": pr, "mine": scn.mine, "steps": steps, "events": w.events.len(), "txs": w.txs.len(), "accepted": n_accept,
         "rejected": n_reject, "blocks": n_blocks, "reorgs": n_reorg, "detached_blocks": n_detached, "concurrent_submits": n_conc,
-        "side_branches_with_commits": n_commit_side, "directed_reorgs": n_directed, "templates": w.n_templates, "error": err});
+        "side_branches_with_commits": n_commit_side, "directed_reorgs": n_directed, "templates": w.n_templates, "boundary_templates": w.n_boundary_templates, "error": err});
     w.dispose();
     doc
 }
